@@ -620,7 +620,10 @@ func (m *Manager) acquireTasks(envId uid.ID, taskDescriptors Descriptors) (err e
 		}
 	}
 
-	m.deployMu.Unlock()
+	if len(tasksToRun) > 0 {
+		// ↑ the deployment mutex is only taken when there is something to deploy
+		m.deployMu.Unlock()
+	}
 
 	if !deploymentSuccess {
 		var deployedTaskIds []string
